@@ -15,12 +15,12 @@ import (
 // symClock: the local clock is an arbitrary function of the call number
 type symClock struct{}
 
-func (symClock) Epoch() uint64                      { return v.Uint64("clk.epoch") }
-func (symClock) Now() time.Time                     { return c06time("clk.now") }
-func (symClock) Drift(time.Duration) time.Duration  { return 0 }
-func (symClock) Step(time.Duration)                 {}
+func (symClock) Epoch() uint64                        { return v.Uint64("clk.epoch") }
+func (symClock) Now() time.Time                       { return c06time("clk.now") }
+func (symClock) Drift(time.Duration) time.Duration    { return 0 }
+func (symClock) Step(time.Duration)                   {}
 func (symClock) Adjust(_, _ time.Duration, _ float64) {}
-func (symClock) Sleep(time.Duration)                {}
+func (symClock) Sleep(time.Duration)                  {}
 
 var _ timebase.SystemClock = symClock{}
 
